@@ -76,6 +76,7 @@ func c08Failing(keys []val.Item, thorough, twoIdx bool) []drv.Op {
 		// index key type mismatch: the failure arises after the base-table step
 		add("Put(index key wrong type)", drv.Op{K: drv.KPut, Item: with(k, "g", val.N("5"), "a", val.S("bad"))})
 		add("Upd(SET index key to wrong type)", drv.Op{K: drv.KUpd, Key: k, Upd: rx.U(rx.Set("g", rx.RV(":n")), rx.Set("a", rx.RV(":v"))), Values: map[string]val.V{":n": val.N("5"), ":v": val.S("bad")}})
+		add("Upd(SET and REMOVE nested members, SET index key to wrong type)", drv.Op{K: drv.KUpd, Key: k, Upd: rx.U(rx.Set("m.x", rx.RV(":v")), rx.Set("g", rx.RV(":n")), rx.Remove("m.note")), Values: map[string]val.V{":n": val.N("5"), ":v": val.S("bad")}})
 		if twoIdx {
 			// two indexes: the item is ill-typed for one of them and well-typed for the other
 			add("Put(second index key wrong type)", drv.Op{K: drv.KPut, Item: with(k, "g", val.S("x"), "a", val.N("5"))})
@@ -96,6 +97,10 @@ func c08Failing(keys []val.Item, thorough, twoIdx bool) []drv.Op {
 		add("BatchWrite(valid put, then put with wrong-typed index key)", drv.Op{K: drv.KBatchWrite, Batch: []drv.BWReq{{Table: "tab", Put: with(other, "a", val.S("batch"))}, {Table: "tab", Put: with(k, "g", val.N("5"))}}})
 		add("BatchWrite(valid put, put without key, valid put)", drv.Op{K: drv.KBatchWrite, Batch: []drv.BWReq{{Table: "tab", Put: with(k, "a", val.S("batch"))}, {Table: "tab", Put: val.Item{"a": val.S("nokey")}}, {Table: "tab", Put: with(other, "a", val.S("batch"))}}})
 		add("BatchWrite(valid delete, put with wrong-typed index key, valid put)", drv.Op{K: drv.KBatchWrite, Batch: []drv.BWReq{{Table: "tab", Del: other}, {Table: "tab", Put: with(k, "g", val.N("5"))}, {Table: "tab", Put: with(other, "a", val.S("batch"))}}})
+		// a batch over two tables with the invalid request in one of them (whichever table the
+		// implementation looks at first, nothing is written to the other)
+		add("BatchWrite(valid put on tab, put without key on tb2)", drv.Op{K: drv.KBatchWrite, Batch: []drv.BWReq{{Table: "tab", Put: with(other, "a", val.S("batch"))}, {Table: "tb2", Put: val.Item{"a": val.S("nokey")}}}})
+		add("BatchWrite(put without key on tab, valid put on tb2)", drv.Op{K: drv.KBatchWrite, Batch: []drv.BWReq{{Table: "tab", Put: val.Item{"a": val.S("nokey")}}, {Table: "tb2", Put: with(k, "a", val.S("batch"))}}})
 		add("BatchWrite(put and delete in one request)", drv.Op{K: drv.KBatchWrite, Batch: []drv.BWReq{{Table: "tab", Put: with(other, "a", val.S("batch"))}, {Table: "tab", Put: with(k), Del: k, Both: true}}})
 	}
 	add("Query(unknown table)", drv.Op{K: drv.KQuery, Table: "nope", KeyCond: rx.Eq("h", ":v"), Values: sv})
@@ -130,7 +135,7 @@ func C08(run *ev.Run, tier string) map[string]interface{} {
 	// an index created after items that are ill-typed for it were stored (they stay out of it):
 	// every later write to such an item is rejected, and must be rejected without effect
 	cfg3 := c03cfg{name: "late-GSI", cfg: drv.TableCfg{Hash: "h", HashT: "S", Billing: "PAY_PER_REQUEST", GSI: []drv.IndexCfg{{Name: "gsi", Hash: "g", HashT: "S"}}}, keys: keys[:2], gsi2: true}
-	u := Universe{Keys: map[string][]val.Item{"tab": keys, "other": {}}}
+	u := Universe{Keys: map[string][]val.Item{"tab": keys, "tb2": keys[:1], "other": {}}}
 	failCount := 0
 	total, per := exploreBoth(run, func(newImpl func() drv.Driver, dn string) []mc.Sys {
 		var out []mc.Sys
@@ -155,7 +160,7 @@ func C08(run *ev.Run, tier string) map[string]interface{} {
 			out = append(out, mc.Sys{
 				Name:    "C08/" + cfg.name,
 				NewImpl: newImpl,
-				Init:    []drv.Op{{K: drv.KCreate, Table: "tab", Cfg: &cfg.cfg}},
+				Init:    []drv.Op{{K: drv.KCreate, Table: "tab", Cfg: &cfg.cfg}, {K: drv.KCreate, Table: "tb2", Cfg: &drv.TableCfg{Hash: "h", HashT: "S", Billing: "PAY_PER_REQUEST"}}},
 				Alphabet: func(m *model.Model) []drv.Op {
 					ops := append([]drv.Op{}, writes(m)...)
 					for _, f := range failing {
